@@ -150,6 +150,30 @@ Theorem C13_log_from_best :
        (exists o, l = LRLock o /\ rpc s = RWantR (c, h))).
 Proof. exact log_from_best. Qed.
 
+(** BestMasterchainClient (and BestClientByAccountID / ByBlockID through it) on a pool whose
+    choice has no head yet is the waiter with target 1 that hands the RECEIVED head to its
+    caller: that head is >= 1 and was reported by the connection that was the best one when it
+    was sent — also when the best connection switches while the call waits *)
+Theorem C13_first_head_received :
+  forall strat nconns tgt heads b s w,
+    tgt w = 1%N ->
+    reachable strat false false nconns tgt (init_state heads b) s -> succeeded (wpc s w) ->
+    exists c h, wgot s w = Some (c, h) /\ (1 <= h)%N /\ In (c, h) (log s) /\ (h <= head s c)%N.
+Proof.
+  intros strat nconns tgt heads b s w Ht Hr Hs.
+  destruct (wait_success strat nconns tgt heads b s w Hr Hs) as (c & h & H1 & H2 & H3 & H4).
+  exists c, h. rewrite Ht in H2. auto.
+Qed.
+
+(** REFUTED for the design that hands out the head of the connection captured at call time
+    instead: after a switch of the best connection during the wait the call succeeds while
+    that connection is still at the all-zero head *)
+Theorem C13_reread_captured_head_refuted :
+  exists s, reachable BestPing false false 2 (fun _ => 1%N) (init_state (fun _ => 0%N) (Some 0)) s /\
+    wpc s 0 = WUnsub ROk /\ wgot s 0 = Some (1, 8%N) /\ best s = Some 1 /\
+    head s 0 = 0%N /\ ~ (1 <= head s 0)%N.
+Proof. exact reread_captured_head_refuted. Qed.
+
 (** ... immediately at subscribe if the best connection is already there *)
 Theorem C13_wait_immediate :
   forall strat nconns tgt s w b,
